@@ -174,4 +174,57 @@ C16_Compiles(it, real, compiled) ==
   (real = "OK" /\ compiled # "na" /\ ~Documented(it)) =>
      IF Outcome(it) = "RejectAtTypeck" THEN compiled = "fail_isoption" ELSE compiled = "ok"
 
+(***************************************************************************)
+(* C10: lists, values and the merge.  Here an attribute LIST is            *)
+(*   [ns |-> "ts"|"serde", entries |-> Seq([key, val, cls])]               *)
+(* val: "v1" | "v2" (two valid values) | "flag";                           *)
+(* cls (only meaningful for serde entries): how impl_parse!{Serde<..>}     *)
+(*   treats the entry at this position:                                    *)
+(*   "known"     a supported key with a value of the right form            *)
+(*   "inert"     a key parsed only to stay quiet (default, deny_unknown..) *)
+(*   "unknown"   not in the table: skipped up to the next comma            *)
+(*   "bad"       a key of the table with a value it cannot parse           *)
+(*               (rename(serialize = ..), bound(..)): pinned code dropped  *)
+(*               the WHOLE list (parse_serde_attrs .ok()), the repaired    *)
+(*               code parses a serde list entry by entry                   *)
+(* The effective attributes are a function key -> value ("none" if unset). *)
+(***************************************************************************)
+CONSTANT DropWholeList
+
+AllKeys == {"rename", "rename_all", "rename_all_fields", "tag", "content", "untagged", "skip", "flatten", "inline", "optional", "as", "type"}
+NoAttrs == [k \in AllKeys |-> "none"]
+
+\* `a.merge(b)`: Option::or / || - what is set first wins
+MergeEff(a, b) == [k \in AllKeys |-> IF a[k] # "none" THEN a[k] ELSE b[k]]
+
+RECURSIVE SetAll(_, _)
+SetAll(e, entries) ==      \* within one list a later assignment overwrites
+  IF entries = <<>> THEN e ELSE SetAll([e EXCEPT ![entries[1].key] = entries[1].val], Tail(entries))
+
+TsListEff(l) == SetAll(NoAttrs, l.entries)
+
+SerdeListEff(l) ==
+  IF DropWholeList
+  THEN IF \E i \in DOMAIN l.entries : l.entries[i].cls = "bad" THEN NoAttrs
+       ELSE SetAll(NoAttrs, SelectSeq(l.entries, LAMBDA x : x.cls = "known"))
+  ELSE LET RECURSIVE One(_, _)
+           One(e, es) == IF es = <<>> THEN e
+                         ELSE One(IF es[1].cls = "known" THEN MergeEff(e, [NoAttrs EXCEPT ![es[1].key] = es[1].val]) ELSE e, Tail(es))
+       IN One(NoAttrs, l.entries)
+
+RECURSIVE FoldLists(_, _, _)
+FoldLists(e, lists, ns) ==
+  IF lists = <<>> THEN e
+  ELSE IF lists[1].ns # ns THEN FoldLists(e, Tail(lists), ns)
+  ELSE FoldLists(MergeEff(e, IF ns = "ts" THEN TsListEff(lists[1]) ELSE SerdeListEff(lists[1])), Tail(lists), ns)
+
+\* from_attrs: ts lists first; serde lists underneath, unless compat is off or (fields, variants) ts says skip
+EffAttrs(pos, lists) ==
+  LET ts == FoldLists(NoAttrs, lists, "ts") IN
+  IF ~SerdeCompat \/ (pos \in {"field", "variant"} /\ ts["skip"] # "none") THEN ts
+  ELSE MergeEff(ts, FoldLists(NoAttrs, lists, "serde"))
+
+\* the four statements of C10, on two attribute-list sequences A and B of one position
+C10_Same(pos, A, B) == EffAttrs(pos, A) = EffAttrs(pos, B)
+
 =============================================================================
